@@ -39,6 +39,8 @@ ANN = {
     "Literal[1,2]": Literal[1, 2], "Literal[2,1]": Literal[2, 1],
     "Literal['a',1]": Literal["a", 1], "Literal[1,'a']": Literal[1, "a"],
     "Union[A,int]": Union[K0, int], "A|int": K0 | int, "(int,A)": (int, K0),
+    "type[A]": type[K0], "'type[A]'": "type[C15_K0]", "Annotated[type[A],'x']": Annotated[type[K0], "x"], "Type[A]": typing.Type[K0],
+    "type": type, "'type'": "type", "type[object]": type[object], "type[Any]": type[Any],
     # surroundings only
     "B": K1, "K2": K2, "K3": K3, "int": int, "str": str, "Literal[1]": Literal[1], "Literal[2,3]": Literal[2, 3], "Union[B,int]": Union[K1, int],
     "list": list, "list[int]": list[int], "NoneType": NoneT,
@@ -53,11 +55,13 @@ CLASSES_EQ = [
     ["Literal[1,2]", "Literal[2,1]"],
     ["Literal['a',1]", "Literal[1,'a']"],
     ["Union[A,int]", "A|int", "(int,A)"],
+    ["type[A]", "'type[A]'", "Annotated[type[A],'x']"],
+    ["type", "'type'", "type[object]"],
 ]
 SURROUND_POOL = ["A", "B", "K2", "K3", "object", "int", "str", "Literal[1]", "Literal[2,3]", "Union[B,int]", "list", "list[int]", "NoneType", "Union[A,B]"]
 
 VALUES = [("K0()", K0()), ("K1()", K1()), ("K2()", K2()), ("K3()", K3()), ("None", None), ("1", 1), ("2", 2), ("3", 3), ("'a'", "a"), ("'b'", "b"),
-          ("[]", []), ("[K0()]", [K0()]), ("[1]", [1]), ("1.5", 1.5)]
+          ("[]", []), ("[K0()]", [K0()]), ("[1]", [1]), ("1.5", 1.5), ("K0", K0), ("K3", K3), ("K1", K1), ("int", int), ("list[K0]", list[K0])]
 
 
 def norm(out):
@@ -173,7 +177,7 @@ def main(tier):
     merged = core.run_sharded(__name__, "shard", tier)
     return core.finish(
         PROP, tier, "model_checking", merged, t0,
-        rule="8 classes of equivalent spellings (Union in three syntaxes and both member orders; Optional forms; missing / Any / object; "
+        rule="10 classes of equivalent spellings (incl. type[A] written directly / as a string / in Annotated, and bare type / its string form / type[object]) (Union in three syntaxes and both member orders; Optional forms; missing / Any / object; "
              "Annotated; string annotation; list[A] / typing.List[A]; Literal value orders incl. mixed types; union with a builtin) x "
              "surroundings (none; every single method of a pool at priority 0 / 1 / -1; pairs; the other spelling of the same "
              "annotation, which must act as a re-registration) x registered first or last x every corpus value; oracle: the outcome "
